@@ -3,6 +3,7 @@
 package server
 
 import (
+	"strings"
 	"fmt"
 	"os"
 	"reflect"
@@ -117,6 +118,7 @@ func runC12(c c12Case, o *vfutil.Obs) *vfutil.Failure {
 		}
 	}()
 	balancedOnce, disturbed, rebuilt := false, false, false
+	compareShadow := true
 	for step, op := range c.Ops {
 		w.epoch++ // the Raft index of the operation
 		m := c12Member(op.M)
@@ -217,9 +219,11 @@ func runC12(c c12Case, o *vfutil.Obs) *vfutil.Failure {
 			}
 			if vfutil.IsExcluded("c12-snapshot-member-order") {
 				// open finding: assignments depend on the join history, which a
-				// snapshot does not carry; constructed away so the search goes on
+				// snapshot does not carry. The restored group is still built and
+				// must satisfy every invariant on its own; only the comparison of
+				// its assignments with the live group's is constructed away.
 				o.Excluded("c12-snapshot-member-order")
-				continue
+				compareShadow = false
 			}
 			coord, ep := w.shadow.GetCoordinator()
 			mem := w.shadow.GetMembers()
@@ -260,7 +264,12 @@ func runC12(c c12Case, o *vfutil.Obs) *vfutil.Failure {
 		if f != nil {
 			return f
 		}
-		if !c12SameAssignments(as, as2) {
+		if !compareShadow {
+			if f := c12CheckAssignments(step, w, as2); f != nil {
+				f.Signature = strings.Replace(f.Signature, "C12/", "C12/restored-group/", 1)
+				return f
+			}
+		} else if !c12SameAssignments(as, as2) {
 			cls := "same-history"
 			if rebuilt {
 				cls = "after-snapshot-restore"
